@@ -535,6 +535,11 @@ fn mainline_sort<E: Event>(
     let mut mainline = vec![];
     let mut pl = resolved_power_level;
     while let Some(p) = pl {
+        // With the event IDs of room versions 1 and 2, events can name each other as auth events.
+        if mainline.contains(&p) {
+            break;
+        }
+
         mainline.push(p.clone());
 
         let event =
@@ -591,11 +596,18 @@ fn get_mainline_depth<E: Event>(
     mainline_map: &HashMap<E::Id, usize>,
     fetch_event: impl Fn(&EventId) -> Option<E>,
 ) -> Result<usize> {
+    let mut visited = HashSet::new();
+
     while let Some(sort_ev) = event {
         debug!(event_id = sort_ev.event_id().borrow().as_str(), "mainline");
         let id = sort_ev.event_id();
         if let Some(depth) = mainline_map.get(id.borrow()) {
             return Ok(*depth);
+        }
+
+        // With the event IDs of room versions 1 and 2, events can name each other as auth events.
+        if !visited.insert(id.borrow().to_owned()) {
+            break;
         }
 
         event = None;
